@@ -62,6 +62,30 @@ def run(ctx, idx):
     folds = [n for n in ast.walk(getattr(xex, "node_orig", None) or xex.node) if isinstance(n, ast.Call) and (idx.qualname(xex.module, n.func, xex) or K.src(n.func)).split(".")[-1] == "reduce"
              and len(n.args) >= 2 and not ("mask" in K.src(n.args[1]) or "mask" in K.src(n.args[0]))]
     if folds:
+        # what is folded: the formula itself (a division in the folded function, directly or through another local function) is the
+        # violation; a fold that carries something else along (the pair of the two truest so far, say) is not followed from here
+        src_ = getattr(xex, "node_orig", None) or xex.node
+        local_ = {n.name: n for n in ast.walk(src_) if isinstance(n, ast.FunctionDef) and n is not src_}
+        local_.update({t.id: st.value for st in ast.walk(src_) if isinstance(st, ast.Assign) and isinstance(st.value, ast.Lambda) for t in st.targets if isinstance(t, ast.Name)})
+
+        def _divides(fn, seen=()):
+            if isinstance(fn, ast.Name):
+                if fn.id in seen or fn.id not in local_:
+                    return fn.id not in local_ and None
+                return _divides(local_[fn.id], seen + (fn.id,))
+            if not isinstance(fn, (ast.FunctionDef, ast.Lambda)):
+                return None
+            for n in ast.walk(fn):
+                if isinstance(n, ast.BinOp) and isinstance(n.op, ast.Div):
+                    return True
+                if isinstance(n, ast.Call) and isinstance(n.func, ast.Name) and n.func.id in local_ and n.func.id not in seen and _divides(n.func, seen):
+                    return True
+                if isinstance(n, ast.Call) and (idx.qualname(xex.module, n.func, xex) or K.src(n.func)).split(".")[-1] in ("divide", "true_divide"):
+                    return True
+            return False
+        dv = _divides(folds[0].args[0])
+        if dv is not True:
+            raise AnalysisError("C06.d: FuzzyXOr folds `%s` over its inputs and the folded function does not apply the exclusive-or formula itself: what it carries from input to input is outside what this rule decides" % K.src(folds[0].args[0])[:40])
         ctx.violate("C06.d", "%s::two-truest" % xex.key.replace(".execute", "") + ".execute", K.rel(xex), folds[0].lineno, "`%s` folds the exclusive-or over the inputs pair by pair: the EEMS formula is not associative, so with three or more inputs the value is not the one defined on the truest and second truest of all of them, and it changes with the order of the inputs" % K.src(folds[0])[:60])
         return
     res = {d.cls.name: (d, r) for d, r in R.results(idx).values() if d.module.name.endswith("eems.fuzzy")}
